@@ -1,6 +1,241 @@
 package main
 
-import "strings"
+import (
+	"fmt"
+	"go/ast"
+	"go/parser"
+	"go/token"
+	"path/filepath"
+	"sort"
+	"strings"
+)
 
-// factsExtra appends structural facts (filled in per property).
-func factsExtra(ctx *Ctx, b *strings.Builder) {}
+// factsExtra appends structural facts that running the code cannot observe reliably.
+func factsExtra(ctx *Ctx, b *strings.Builder) {
+	b.WriteString("Open Scope string_scope.\n\n")
+	txnShape(ctx, b)
+	lockShape(ctx, b)
+	factsMore(ctx, b)
+}
+
+func parseFile(repo, rel string) (*token.FileSet, *ast.File) {
+	fset := token.NewFileSet()
+	f, err := parser.ParseFile(fset, filepath.Join(repo, rel), nil, parser.ParseComments)
+	if err != nil {
+		fatal("parse %s: %v", rel, err)
+	}
+	return fset, f
+}
+
+func recvName(fd *ast.FuncDecl) (typ string, name string) {
+	if fd.Recv == nil || len(fd.Recv.List) == 0 {
+		return "", ""
+	}
+	f := fd.Recv.List[0]
+	t := f.Type
+	if st, ok := t.(*ast.StarExpr); ok {
+		t = st.X
+	}
+	if id, ok := t.(*ast.Ident); ok {
+		typ = id.Name
+	}
+	if len(f.Names) > 0 {
+		name = f.Names[0].Name
+	}
+	return
+}
+
+func isSel(e ast.Expr, parts ...string) bool {
+	// matches a.b.c selector chains
+	for i := len(parts) - 1; i >= 1; i-- {
+		s, ok := e.(*ast.SelectorExpr)
+		if !ok || s.Sel.Name != parts[i] {
+			return false
+		}
+		e = s.X
+	}
+	id, ok := e.(*ast.Ident)
+	return ok && id.Name == parts[0]
+}
+
+var storeMethods = []string{"CheckAndSaveNonce", "GetNodeBalance", "AddNodeBalance", "GetAccountBalance",
+	"AddAccountBalance", "AddAccountNode", "IsAccountNode", "GetAccountNodes", "ActiveHosts", "GetNode", "SetNode",
+	"NodePeers", "UpdateNodePeers", "Stats"}
+
+// txnShape: for every Store method of the badger driver, how many transactions it runs
+// (s.db.Update / s.db.View, or the driver's own single-transaction wrappers) and how many
+// key writes happen lexically outside a transaction closure.
+func txnShape(ctx *Ctx, b *strings.Builder) {
+	_, f := parseFile(ctx.Repo, "pool/store/badger/badger.go")
+	decls := map[string]*ast.FuncDecl{}
+	for _, d := range f.Decls {
+		if fd, ok := d.(*ast.FuncDecl); ok {
+			if typ, _ := recvName(fd); typ == "badgerStore" {
+				decls[fd.Name.Name] = fd
+			}
+		}
+	}
+	// wrappers: methods of badgerStore, not Store methods, that contain exactly one db txn call
+	countDirect := func(fd *ast.FuncDecl) (upd, view int) {
+		_, recv := recvName(fd)
+		ast.Inspect(fd.Body, func(n ast.Node) bool {
+			if c, ok := n.(*ast.CallExpr); ok {
+				if isSel(c.Fun, recv, "db", "Update") {
+					upd++
+				} else if isSel(c.Fun, recv, "db", "View") {
+					view++
+				}
+			}
+			return true
+		})
+		return
+	}
+	isStore := map[string]bool{}
+	for _, m := range storeMethods {
+		isStore[m] = true
+	}
+	wrappers := map[string][2]int{}
+	for name, fd := range decls {
+		if isStore[name] || fd.Body == nil {
+			continue
+		}
+		u, v := countDirect(fd)
+		if u+v == 1 {
+			wrappers[name] = [2]int{u, v}
+		}
+	}
+	var lines []string
+	for _, m := range storeMethods {
+		fd := decls[m]
+		if fd == nil {
+			lines = append(lines, fmt.Sprintf("(%q, (0, 0, 1))", m)) // missing method: flagged
+			continue
+		}
+		_, recv := recvName(fd)
+		upd, view := countDirect(fd)
+		outside := 0
+		// calls to wrappers
+		ast.Inspect(fd.Body, func(n ast.Node) bool {
+			if c, ok := n.(*ast.CallExpr); ok {
+				if s, ok := c.Fun.(*ast.SelectorExpr); ok {
+					if id, ok := s.X.(*ast.Ident); ok && id.Name == recv {
+						if w, ok := wrappers[s.Sel.Name]; ok {
+							upd += w[0]
+							view += w[1]
+						}
+					}
+				}
+			}
+			return true
+		})
+		// writes outside of any function literal
+		var walk func(n ast.Node, inLit bool)
+		walk = func(n ast.Node, inLit bool) {
+			ast.Inspect(n, func(x ast.Node) bool {
+				switch v := x.(type) {
+				case *ast.FuncLit:
+					if !inLit {
+						walk(v.Body, true)
+						return false
+					}
+				case *ast.CallExpr:
+					name := ""
+					switch fn := v.Fun.(type) {
+					case *ast.Ident:
+						name = fn.Name
+					case *ast.SelectorExpr:
+						name = fn.Sel.Name
+					}
+					if !inLit && (name == "setItem" || name == "setExpiringItem" || name == "Set" || name == "SetEntry" || name == "Delete") {
+						outside++
+					}
+				}
+				return true
+			})
+		}
+		walk(fd.Body, false)
+		lines = append(lines, fmt.Sprintf("(%q, (%d, %d, %d))", m, upd, view, outside))
+	}
+	b.WriteString("(* badger driver: per Store method (update transactions, view transactions, writes outside a transaction) *)\n")
+	b.WriteString("Definition txn_shape : list (string * (Z * Z * Z)) :=\n  [" + strings.Join(lines, ";\n   ") + "].\n\n")
+
+	// Migrate runs in one update transaction
+	_, mf := parseFile(ctx.Repo, "pool/store/badger/migration.go")
+	mig := 0
+	for _, d := range mf.Decls {
+		if fd, ok := d.(*ast.FuncDecl); ok && fd.Name.Name == "Migrate" {
+			ast.Inspect(fd.Body, func(n ast.Node) bool {
+				if c, ok := n.(*ast.CallExpr); ok {
+					if s, ok := c.Fun.(*ast.SelectorExpr); ok && s.Sel.Name == "Update" {
+						mig++
+					}
+				}
+				return true
+			})
+		}
+	}
+	fmt.Fprintf(b, "Definition migrate_txns : Z := %d.\n\n", mig)
+}
+
+// lockShape: for every method of the in-memory driver, whether the store mutex is taken
+// (Lock immediately followed by a deferred Unlock) before the first access to a field.
+func lockShape(ctx *Ctx, b *strings.Builder) {
+	_, f := parseFile(ctx.Repo, "pool/store/memory/memory.go")
+	var lines []string
+	names := []string{}
+	res := map[string]bool{}
+	for _, d := range f.Decls {
+		fd, ok := d.(*ast.FuncDecl)
+		if !ok || fd.Body == nil {
+			continue
+		}
+		typ, recv := recvName(fd)
+		if typ != "memoryStore" || fd.Name.Name == "Close" {
+			continue
+		}
+		locked := false
+		okShape := true
+		touches := func(n ast.Node) bool {
+			found := false
+			ast.Inspect(n, func(x ast.Node) bool {
+				if s, ok := x.(*ast.SelectorExpr); ok {
+					if id, ok := s.X.(*ast.Ident); ok && id.Name == recv && s.Sel.Name != "mu" {
+						found = true
+					}
+				}
+				return true
+			})
+			return found
+		}
+		stmts := fd.Body.List
+		for i, st := range stmts {
+			if es, ok := st.(*ast.ExprStmt); ok {
+				if c, ok := es.X.(*ast.CallExpr); ok && isSel(c.Fun, recv, "mu", "Lock") {
+					// next statement must be defer recv.mu.Unlock()
+					if i+1 < len(stmts) {
+						if ds, ok := stmts[i+1].(*ast.DeferStmt); ok && isSel(ds.Call.Fun, recv, "mu", "Unlock") {
+							locked = true
+						}
+					}
+					break
+				}
+			}
+			if touches(st) {
+				okShape = false
+				break
+			}
+		}
+		names = append(names, fd.Name.Name)
+		res[fd.Name.Name] = locked && okShape
+	}
+	sort.Strings(names)
+	for _, n := range names {
+		v := "false"
+		if res[n] {
+			v = "true"
+		}
+		lines = append(lines, fmt.Sprintf("(%q, %s)", n, v))
+	}
+	b.WriteString("(* memory driver: method takes the mutex (Lock; defer Unlock) before touching any field *)\n")
+	b.WriteString("Definition lock_shape : list (string * bool) :=\n  [" + strings.Join(lines, ";\n   ") + "].\n\n")
+}
